@@ -29,7 +29,7 @@ CLAIMS = {
              "exact tables; asset-lookup forwarding completeness over all Satisfier impls; malleable entry points reach "
              "malleable internals (call-site rule with reasoned exceptions). End to end on a bounded family (as C01): whenever a "
              "canonical satisfaction exists with the owned assets, the malleable satisfier returns one, and so does the "
-             "non-malleable one for scripts typed non-malleable.",
+             "non-malleable one for scripts typed non-malleable. The planner's matching of keys against the caller's Assets (is_key_direct_child_of) is an exhaustive table on short paths (rule shared with C17).",
         note="Trusted: spec/satisfaction.py; rustc THIR. The witness search itself is not decided.",
         tech=STATIC + "cross-table contradiction rule, finite decision tables from THIR, who-calls-whom mode rule",
         engine="symx+tablex"),
@@ -54,7 +54,9 @@ CLAIMS = {
              "lexer + decoder on the specification's script; and every single-instruction mutation of those scripts "
              "(deletions, duplications, swaps, opcode / push insertions and replacements, zero / non-minimal numbers, a "
              "fused *VERIFY written as two opcodes) that the decoder accepts re-encodes to the very same instruction "
-             "stream (the decoder accepts canonical encodings only).",
+             "stream (the decoder accepts canonical encodings only); the context's key pushes (push_ms_key / push_ms_key_hash / "
+             "to_pubkeyhash) push / hash the key in its own serialization (33 / 65 bytes by its compressed flag; x-only in "
+             "tapscript).",
         note="Trusted: spec/script.py (opcode bytes, templates); models of bitcoin::script::Builder::push_* (token "
              "constructors), the instruction iterator and read_scriptint; rustc THIR. The decoder is covered on the family, "
              "not on all scripts.",
@@ -86,7 +88,7 @@ CLAIMS = {
              "push-size and compact-size breakpoint; script_size of every fragment equals the encoder's template length "
              "(rule shared with C04); and measured on ~60 whole scripts: the figures computed by evaluating parser + type "
              "checker bound every witness the evaluated satisfier produces (every key subset x preimage set x both modes) "
-             "in element count and bytes, and script_size / pk_cost equal the script's byte length.",
+             "in element count and bytes, and script_size / pk_cost equal the script's byte length. Every typed leaf constructor of Miniscript (pk_k ... sortedmulti_a, TRUE / FALSE: what parser, decoder and compiler use) attaches the type and figures that from_ast computes for the same node, in every context (shared rule).",
         note="Trusted: spec/satisfaction.py, spec/script.py, spec/limits.py; rustc THIR. Executed-opcode and exec-stack "
              "depth figures are not decided against an execution.",
         tech=STATIC + "symbolic extraction of accounting rules as max-plus / linear forms, domination check against template images",
@@ -98,7 +100,7 @@ CLAIMS = {
              "mixed-time-lock fold truth table. Decides structurally: polarity (tightening never admits more) and "
              "switch<->defect<->error pairing of every validation switch / limit on decision trees extracted symbolically "
              "from validate / validate_non_top_level for each of the 30 fragment kinds; every parameter is enforced; "
-             "per-context fragment and key tables; entry-point coverage and constructor discipline on MIR. Numbers are in range on every way in: lock times exactly 1 <= n < 2^31 and thresholds 1 <= k <= n <= key limit, through the constructors, the text parser and the script decoder (boundary tables by evaluation).",
+             "per-context fragment and key tables; entry-point coverage and constructor discipline on MIR. Numbers are in range on every way in: lock times exactly 1 <= n < 2^31 and thresholds 1 <= k <= n <= key limit, through the constructors, the text parser and the script decoder (boundary tables by evaluation). Every typed leaf constructor of Miniscript (pk_k ... sortedmulti_a, TRUE / FALSE: what parser, decoder and compiler use) attaches the type and figures that from_ast computes for the same node, in every context (shared rule).",
         note="Trusted: spec/limits.py; rustc THIR/MIR and constant evaluation. Defect predicates are assumed to compute "
              "what their names say; typed infallible combinators are outside the claim.",
         tech=STATIC + "symbolic decision-tree extraction with monotonicity (polarity) check, exact finite tables, MIR must-pass-through and who-may-construct",
@@ -122,7 +124,7 @@ CLAIMS = {
         cat="proof",
         text="Exhaustive decision over the finite domain: every typing rule's exact table (from its typed syntax tree) "
              "equals the transcribed specification table on all child types a fragment can have; Type::* pairing and "
-             "type_check dispatch decided symbolically; sanity assertions discharged on the reachable-type fixpoint.",
+             "type_check dispatch decided symbolically; sanity assertions discharged on the reachable-type fixpoint. Every typed leaf constructor of Miniscript (pk_k ... sortedmulti_a, TRUE / FALSE: what parser, decoder and compiler use) attaches the type and figures that from_ast computes for the same node, in every context (shared rule).",
         note="Trusted: spec/types.py transcription; rustc THIR; the evaluator's semantics for the small first-order Rust "
              "subset the rules use (fails closed outside it). thresh bounded to n<=3 quick / n<=5 thorough.",
         tech=STATIC + "exact decision-table extraction from THIR (constant folding over a finite domain) + symbolic dispatch extraction",
@@ -193,13 +195,13 @@ CLAIMS["C10"] = dict(
          "lengths; checksum constants, alphabet, CHAR_MAP and the character->symbol expansion equal BIP-380 for every "
          "character in every group position; TapTreeBuilder records brace depths up to depth 128 with several bottom "
          "pairs; descriptor public-key expressions (single / extended keys x origin x derivation path x multipath step x "
-         "wildcard) round-trip, non-canonical spellings reach a fixed point, repeated multipath indexes are refused. Inside "
-         "miniscripts keys and hashes are opaque texts.",
+         "wildcard) round-trip, non-canonical spellings reach a fixed point, repeated multipath indexes are refused; "
+         "wallet-policy key placeholders @i/<M;N>/* (incl. /** and pairs of different digit counts) and whole templates "
+         "round-trip, a descriptor turns into its template and back. Inside miniscripts keys and hashes are opaque texts.",
     note="Trusted: spec/bip380.py (BIP-380 reference + model of the bech32 crate's engine); rust-bitcoin lock-time "
          "Display; evaluator semantics and its std string / fmt models; rustc THIR. The 2/4-error detection capability "
          "follows from the BIP-380 generator (constants decided, code distance not re-proved). Secret keys, base58 "
-         "decoding of extended keys (modelled as opaque text of the right shape) and wallet-policy templates are not "
-         "decided.",
+         "decoding of extended keys (modelled as opaque text of the right shape) are not decided.",
     tech=STATIC + "abstract evaluation of printer and parser THIR over an exhaustive family of one- and two-level model "
                   "shapes (locality of both sides makes the family complete per level); constant comparison with BIP-380",
     engine="tablex")
@@ -295,7 +297,8 @@ CLAIMS["C06"] = dict(
          "length 3 over {0, 1, 2, valid / foreign signatures, keys, right / wrong preimages, junk} and all single "
          "substitutions of the canonical witnesses, and the label predictions are checked: B / V / K / W stack shapes, "
          "z / o / n consumption, u, d, s, f, and that canonical (dis)satisfactions leave non-zero / zero; Type::cast_x "
-         "equals type_check of the wrapper on all (cast, child type) pairs (rule shared with C08).",
+         "equals type_check of the wrapper on all (cast, child type) pairs (rule shared with C08); the contexts admit "
+         "exactly the fragments / key kinds that can execute under their script rules (rule shared with C12).",
     note="Trusted: spec/typesem.py (label meanings incl. the MINIMALIF assumption), spec/msexec.py, spec/script.py; C05 "
          "(rules == specification) and C04 (encoder == templates) connect the labels and scripts to the library; rustc "
          "THIR; evaluator. `e` and `m` (third-party malleation) and deeper fragments are not decided.",
@@ -324,7 +327,7 @@ CLAIMS["C08"] = dict(
          "the policies compared by hand; likewise compile_tr (internal-key extraction, per-leaf compilation, Huffman tree), "
          "compile_tr_native, compile_tr_private_experimental and compile_to_descriptor (bare / sh / wsh / sh-wsh / tr) "
          "evaluated on ~12 policies (thorough ~17): the descriptor is of the requested kind, lifts to the policy's truth "
-         "table (the unspendable key never available), every leaf passes validate(&Tap::SANE), the text re-parses.",
+         "table (the unspendable key never available), every leaf passes validate(&Tap::SANE), the text re-parses. Every typed leaf constructor of Miniscript (pk_k ... sortedmulti_a, TRUE / FALSE: what parser, decoder and compiler use) attaches the type and figures that from_ast computes for the same node, in every context (shared rule).",
     note="Trusted: spec/semantics.py + spec/policy_sem.py; C05/C06 (types are sound), C07 (lift), C09 (limits used by "
          "check_local_validity); rustc THIR; evaluator. Cost optimality and ExtData attached by casts (C09 decides the "
          "rules) are not decided; the end-to-end rules are bounded families.",
